@@ -42,6 +42,9 @@ func (c *fakeConn) VerifContent() []byte {
 	return out
 }
 
+// VerifConsume: a buffering reader has taken everything the connection had to deliver.
+func (c *fakeConn) VerifConsume() { c.pos = len(c.input) }
+
 func (c *fakeConn) Write(b []byte) (int, error) {
 	c.written = append(c.written, b...)
 	c.writes++
